@@ -198,6 +198,25 @@ func C15(c *core.Ctx) {
 			jobs[i] = inferJob{P: P, Training: main.String(), Target: fmt.Sprintf("2020-03-01 \"%s shop\"\nAssets:Bank %s 7 CHF\n", w, P), Extra: extra}
 		}
 	}
+	// directed shapes: the placeholder text outside bookings, look-alike accounts, unusual placeholder names,
+	// training == target, a diamond of training includes, odd layouts and descriptions
+	train := "2020-01-01 open Assets:Bank\n\n2020-02-01 \"coop food\"\nAssets:Bank Expenses:Food 5 CHF\n\n2020-02-02 \"rent\"\nAssets:Bank Expenses:Rent 900 CHF\n\n2020-02-03 \"coop food\"\nAssets:Bank Expenses:Food 7 CHF\n"
+	directed := []inferJob{
+		{P: "Expenses:TBD", Training: train, Target: "# Expenses:TBD is the placeholder\n* Expenses:TBD\n// Expenses:TBD Expenses:TBD\n2020-01-01 open Expenses:TBD\n2020-01-01 open Assets:Bank\n\n@accrue monthly 2020-01-01 2020-03-31 Expenses:TBD\n2020-03-01 \"coop Expenses:TBD food\"\nAssets:Bank Expenses:TBD 5 CHF\n\n2020-03-02 balance Expenses:TBD 0 CHF\n\n2020-03-02 balance\nExpenses:TBD 0 CHF\nExpenses:TBD 0 USD\n\n2020-03-03 price TBD 1 CHF\n2020-03-04 close Expenses:TBD\n"},
+		{P: "Expenses:TBD", Training: train, Target: "2020-03-01 \"coop food\"\nAssets:Bank Expenses:TBD:Sub 5 CHF\nAssets:Bank Expenses:TB 5 CHF\nAssets:Bank expenses:tbd 5 CHF\nAssets:Bank Expenses:TBD 5 CHF\nExpenses:TBDX Expenses:TBD 5 CHF\n"},
+		{P: "Ausgaben:Üñbekannt:未定", Training: train, Target: "2020-03-01 \"coop food\"\nAssets:Bank Ausgaben:Üñbekannt:未定 5 CHF\nAusgaben:Üñbekannt:未定 Assets:Bank 5 CHF\n"},
+		{P: "X", Training: train, Target: "2020-03-01 \"rent\"\nAssets:Bank X 900 CHF\nX X 1 CHF\n"},
+		{P: "1:2", Training: train, Target: "2020-03-01 \"rent\"\nAssets:Bank 1:2 900 CHF\n"},
+		{P: "Expenses:Food", Training: train, Target: train}, // the placeholder is a heavily used real account and training == target
+		{P: "Expenses:TBD", Training: "include \"a.knut\"\ninclude \"b.knut\"\n", Target: "2020-03-01 \"coop food\"\nAssets:Bank Expenses:TBD 5 CHF\n",
+			Extra: map[string]string{"a.knut": "include \"shared.knut\"\n", "b.knut": "include \"./shared.knut\"\n2020-02-09 \"coop food\"\nAssets:Bank Expenses:Rent 5 CHF\n", "shared.knut": "2020-02-01 \"coop food\"\nAssets:Bank Expenses:Food 5 CHF\n"}},
+		{P: "Expenses:TBD", Training: train, Target: "2020-03-01\t\"coop\u00a0food\r\nsecond line\n\nafter a blank line\"\r\nAssets:Bank\tExpenses:TBD   5 CHF  \r\nExpenses:TBD \t Assets:Bank -007.50 CHF\r\n"},
+		{P: "Expenses:TBD", Training: "", Target: "2020-03-01 \"\"\nAssets:Bank Expenses:TBD 5 CHF\n\n2020-03-01 \" \"\nExpenses:TBD Expenses:TBD 0 CHF"},
+		{P: "Expenses:TBD", Training: "2020-02-01 \"self\"\nExpenses:Food Expenses:Food 1 CHF\n", Target: "2020-03-01 \"self\"\nExpenses:TBD Expenses:TBD 1 CHF\nExpenses:Food Expenses:TBD 1 CHF\nAssets:Bank Expenses:TBD 1 CHF\n"},
+		{P: "Expenses:TBD", Training: train, Target: "@performance( CHF , USD )\n@accrue monthly 2020-01-01 2020-03-31 Assets:Bank\n2020-03-01 \"coop food\"\nAssets:Bank Expenses:TBD 5 CHF\n\n@accrue daily 2020-01-01 2020-01-03 Assets:Bank\n@performance()\n2020-03-02 \"rent\"\nExpenses:TBD Assets:Bank 5 CHF\n\ninclude \"does/not/exist.knut\"\n"},
+	}
+	jobs = append(jobs, directed...)
+	n = len(jobs)
 	cases := make([]map[string]any, n)
 	core.Parallel(n, func(i int) { cases[i] = inferCase(bin, root, i+1, jobs[i]) })
 	nt := 0
